@@ -104,6 +104,16 @@ static void specials() {
     { Dot11Ack ak; (void)ak.find_pdu<Dot11Ack>(); (void)tins_cast<Dot11Ack*>(static_cast<PDU*>(&ak)); Dot11* d = new Dot11(ak); add("Dot11#sliced_copy_of_used_ack", "Dot11", d, d); }
     { EthernetII e = EthernetII() / IP("1.2.3.4", "4.3.2.1") / TCP(1, 2) / RawPDU("u"); (void)e.find_pdu<TCP>(); (void)e.find_pdu<RawPDU>(); (void)e.rfind_pdu<IP>(); PDU* c = e.clone(); add("EthernetII#clone_of_used_chain", "EthernetII", c, c);
       PDU* i = e.rfind_pdu<IP>().clone(); add("IP#clone_of_used_inner", "IP", i, i); TCP* t = new TCP(e.rfind_pdu<TCP>()); add("TCP#copy_of_used_inner", "TCP", t, t); }
+    // contents that "look like" another class must not change what an object is: a plain BootP whose vendor area starts with the DHCP
+    // magic cookie (set by hand / obtained by parsing DHCP bytes as BootP), a RawPDU holding the bytes of an IP packet, an LLC holding
+    // SNAP's SAP values, an EthernetII whose type field names a VLAN tag, a UDP between DHCP ports with a raw payload
+    { BootP* b = new BootP(); BootP::vend_type v(64, 0); v[0] = 0x63; v[1] = 0x82; v[2] = 0x53; v[3] = 0x63; v[4] = 53; v[5] = 1; v[6] = 1; v[7] = 255; b->vend(v); add("BootP#vend_starts_with_dhcp_cookie", "BootP", b, b); }
+    { DHCP d; d.type(DHCP::DISCOVER); d.end(); std::vector<uint8_t> by = d.serialize(); BootP* b = new BootP(&by[0], (uint32_t)by.size(), (uint32_t)by.size() - 236); add("BootP#parsed_from_dhcp_bytes", "BootP", b, b);
+      EthernetII* e = new EthernetII(); IP* i = new IP("1.2.3.4", "4.3.2.1"); UDP* u = new UDP(67, 68); BootP* b2 = new BootP(*b); e->inner_pdu(i); i->inner_pdu(u); u->inner_pdu(b2); add("BootP#cookie_inside_udp_67_68", "BootP", e, b2); }
+    { std::vector<uint8_t> by = (IP("1.2.3.4", "4.3.2.1") / TCP(1, 2)).serialize(); RawPDU* r = new RawPDU(&by[0], (uint32_t)by.size()); add("RawPDU#holds_ip_tcp_bytes", "RawPDU", r, r); }
+    { LLC* l = new LLC(0xaa, 0xaa); l->type(LLC::UNNUMBERED); add("LLC#snap_saps", "LLC", l, l); }
+    { EthernetII* e = new EthernetII(); e->payload_type(0x8100); e->inner_pdu(new RawPDU("\x00\x05\x08\x00")); add("EthernetII#type=8100,raw_inner", "EthernetII", e, e); }
+    { UDP* u = new UDP(67, 68); u->inner_pdu(new RawPDU("not dhcp")); add("UDP#dhcp_ports,raw_inner", "UDP", u, u); }
     // RawPDU objects that hold no bytes: built empty, emptied after a look-up, moved from
     { RawPDU* r = new RawPDU(""); add("RawPDU#empty", "RawPDU", r, r); }
     { RawPDU* r = new RawPDU((const uint8_t*)"", 0); add("RawPDU#zero_length_buffer", "RawPDU", r, r); }
